@@ -70,6 +70,49 @@ def reads_of(facts, body, depth=0):
     return out
 
 
+def name_reader_rule(facts, rep, par):
+    """Names are NUL-terminated Shift-JIS: the parser's string reader stops at the first zero byte, and for that
+    every byte it consumes has to be compared with zero (Shift-JIS trail bytes are never zero, single-byte
+    half-width katakana 0xA1..0xDF have no trail byte at all)."""
+    R7 = rep.rule("R15.7", "the name reader's terminator scan compares every byte it consumes with NUL; the builder appends exactly one NUL per name", floor=1)
+    from c06 import untested_reads
+    from mir import callee_names
+    readers = set()
+    for bb, t in par.calls():
+        nm = callee_names(t)[1] or callee_names(t)[0] or ""
+        if "EncodedStringReader>::" in nm:
+            readers.add(nm)
+    done = False
+    for rn in sorted(readers):
+        rb = facts.body(rn)
+        if rb is None:
+            continue
+        impls = set()
+        for bb, t in rb.calls():
+            nm = callee_names(t)[1] or callee_names(t)[0] or ""
+            if nm.startswith("mila::encoded_strings::") and nm != rb.name:
+                impls.add(nm)
+        for im in sorted(impls):
+            ib = facts.body(im)
+            if ib is None:
+                continue
+            try:
+                ip = enum_paths(ib)
+            except PathLimit:
+                rep.inconc(R7, "%s: too many paths" % im)
+                continue
+            if not any(e["k"] == "call" and e["callee"] and e["callee"].endswith("FnMut::call_mut") for p in ip for e in p.events):
+                continue
+            done = True
+            w = untested_reads(ip)
+            if w:
+                rep.violation(R7, ib.name, "reader-unit", "%s: %s" % (im.rsplit("::", 1)[-1], w), "%s:%s" % (ib.file, ib.line))
+            else:
+                rep.ok(R7, {"name_reader": rn, "scan": im, "every_byte_compared_with_NUL": True})
+    if not done:
+        rep.inconc(R7, "the parser's name reader / its byte scan was not identified")
+
+
 def run(facts, rep, ctx):
     R1 = rep.rule("R15.1", "record layout duality: header (magic, count, padding) and record (pad, name address, file address, size) agree in order, width, endianness", floor=7)
     R2 = rep.rule("R15.2", "size constants cohere: record size = bytes appended per entry = parser stride; header size = parser position", floor=3)
@@ -81,6 +124,7 @@ def run(facts, rep, ctx):
     if ser is None or par is None or not ser.pub or not par.pub:
         rep.inconc(R1, "anchors fe9_arc::serialize / parse missing")
         return
+    name_reader_rule(facts, rep, par)
     wh = "%s:%s" % (ser.file, ser.line)
     nv = ser.named_view()
     idx = rpo_index(nv)
